@@ -59,6 +59,8 @@ func cstatsProps(op *wire.Rec) info.PropMap {
 		prop.AllDamageReduce: op.Flt("reduce"), prop.Fatigue: op.Flt("fatigue"),
 		prop.CritChance: op.Flt("cc"), prop.CritDMG: op.Flt("cd"), prop.HealBoost: op.Flt("healboost"), prop.HealTaken: op.Flt("healtaken"),
 		prop.EnergyRegen: op.Flt("regen"), prop.AllStanceDMGPercent: op.Flt("stancepct"),
+		// percentage and flat parts of ATK and DEF (absent: 0): the stat is base x (1 + percent) + flat, not below 0
+		prop.ATKPercent: op.Flt("atkpct"), prop.ATKFlat: op.Flt("atkflat"), prop.DEFPercent: op.Flt("defpct"), prop.DEFFlat: op.Flt("defflat"),
 	}
 	for i, v := range op.Flts("dmgpct") {
 		pm[prop.DamagePercent(dmgTypes[i])] = v
@@ -285,7 +287,9 @@ func cstatsInto(r *rand.Rand, op *wire.Rec, u cunit, extreme bool) *wire.Rec {
 		F("allres", pick(r, 0.0, 0, 0.1)).Fs("res", res).F("allpen", pick(r, 0.0, 0, 0.12)).Fs("pen", pen).F("alltaken", alltaken).Fs("taken", taken).
 		F("reduce", reduce).F("fatigue", pick(r, 0.0, 0, 0.15)).F("cc", cc).F("cd", pick(r, 0.5, 1.2, 2.44)).
 		F("healboost", pick(r, 0.0, 0.1, 0.345)).F("healtaken", pick(r, 0.0, 0, 0.2)).F("regen", pick(r, 0.0, 0.05, 0.194)).F("stancepct", pick(r, 0.0, 0.2, 0.5)).
-		Is("weak", weak).B("char", u.char)
+		Is("weak", weak).B("char", u.char).
+		F("atkpct", pick(r, 0.0, 0, 0.3, -0.5)).F("atkflat", pick(r, 0.0, 0, 120.5)). // ATK stays off its clamp here (heal listeners add to its flat part; the clamp itself is C06's)
+		F("defpct", pick(r, 0.0, 0, 0.2, -1.2, -0.5)).F("defflat", pick(r, 0.0, 0, 150, -800))
 }
 
 func cunitOp(r *rand.Rand, u cunit, extreme bool) *wire.Rec {
@@ -386,6 +390,9 @@ func (combatComp) Gen(r *rand.Rand, tier string, n int) []*wire.Case {
 		atk(1, 1, []int{2, 3, 4}, 1, 2, 0.5).I("hadj", 1).I("honly", 2).F("hdmg", 1).F("hcrit", 0).F("htaken", 0.25), wire.R("endattack"),
 		atk(2, 1, []int{2, 3, 4}, 1, 2, 0.2).I("hadj", 1).I("honly", 3).F("hdmg", 0).F("hcrit", 1).F("htaken", 0), wire.R("endattack"),
 		atk(3, 1, []int{3, 2, 3}, 2, 2, 0.5).I("hadj", 1).I("honly", 0).F("hdmg", 0.5).F("hcrit", 0).F("htaken", 0.1), wire.R("endattack"))
+	// defence pushed to and below its clamp by percentage and flat reductions
+	mk("d-def-clamp", plainU(1, true, 1), plainU(2, false, 1).F("defpct", -1.2).F("defflat", 150), plainU(3, false, 1).F("defflat", -800), plainU(4, false, 1).F("defpct", -0.5).F("defflat", 100),
+		atk(1, 1, []int{2, 3, 4}, 1, 2, 0.5), wire.R("endattack"))
 	mk("d-crit-dot", plainU(1, true, 1), plainU(2, false, 1), atk(1, 1, []int{2}, 4, 1, 0), atk(2, 1, []int{2}, 9, 1, 0), atk(3, 1, []int{2}, 5, 1, 0))
 	// clamps
 	mk("d-clamp-res", plainU(1, true, 1), set(plainU(2, false, 1), "res", seven(2, 0.95)), atk(1, 1, []int{2}, 1, 2, 0.5),
